@@ -51,4 +51,14 @@ CHECKS = {
             {"part": "metrics", "test": "TestMetrics", "quick": {"checks": 4000, "shards": 8}, "thorough": {"checks": 200000, "shards": 16, "timeout": 3000}},
         ],
     },
+    "C20": {
+        "pkg": "c20",
+        "aux_builds": [{"pkg": "./cmd/vhook", "out": "vhook"}],
+        "technique": "property-based testing (rapid) over generated directory trees with scripted hook executables",
+        "level_text": "Random hook directory trees loaded by the real hook.Manager.Init; discovered set, order, --config invocation log and error text compared with an independent predicate over the generated description. Search, not proof.",
+        "level_note": "Trusted: the scripted hook (cmd/vhook) and its invocation log; files are sh wrappers around it; tmpfs/ext4 semantics of the sandbox file system.",
+        "parts": [
+            {"part": "discovery", "test": "TestDiscovery", "quick": {"checks": 640, "shards": 16}, "thorough": {"checks": 25000, "shards": 16, "timeout": 3000}},
+        ],
+    },
 }
